@@ -770,7 +770,13 @@ impl Server {
             let response = if let Some(sync_resp) = sync_response {
                 sync_resp
             } else {
-                self.process_frame(frame, id)?
+                match self.process_frame(frame, id) {
+                    Ok(resp) => resp,
+                    // A connection-level failure still tears the connection down;
+                    // a command that could not be carried out is answered with an error
+                    Err(e @ FerrousError::Connection(_)) | Err(e @ FerrousError::Io(_)) => return Err(e),
+                    Err(e) => Self::error_to_reply(&e),
+                }
             };
             responses.push(response);
         }
@@ -915,6 +921,21 @@ impl Server {
         }
         
         Ok(did_work)
+    }
+    
+    /// Turn a command failure that escaped a handler into the error reply the client gets
+    fn error_to_reply(e: &FerrousError) -> RespFrame {
+        match e {
+            FerrousError::Storage(crate::error::StorageError::WrongType) => {
+                RespFrame::error("WRONGTYPE Operation against a key holding the wrong kind of value")
+            }
+            _ => {
+                let msg = e.to_string();
+                let has_code = msg.split(' ').next()
+                    .map_or(false, |w| w.len() > 1 && w.chars().all(|c| c.is_ascii_uppercase()));
+                if has_code { RespFrame::error(msg) } else { RespFrame::error(format!("ERR {}", msg)) }
+            }
+        }
     }
     
     /// Process a RESP frame and generate a response
@@ -1136,7 +1157,7 @@ impl Server {
             match self.process_command_parts(&cmd_parts, db_index) {
                 Ok(response) => results.push(response),
                 Err(e) => {
-                    results.push(RespFrame::error(e.to_string()));
+                    results.push(Self::error_to_reply(&e));
                 }
             }
         }
